@@ -204,7 +204,7 @@ def ownership(ctx):
                    "" if ok else "allocated record is not the CAS's desired value", fn=f.label, inst=f.qname)
 
 
-def uaf(ctx, rid, functions, floor=1):
+def uaf(ctx, rid, functions, floor=1, kinds=None):
     ctx.rule(rid, "no pointer/iterator is dereferenced after erase / delete / destroy+deallocate / move-from "
              "(all paths, loop back-edges included)", floor=floor)
     fxb, _ = ctx.fx
@@ -216,6 +216,8 @@ def uaf(ctx, rid, functions, floor=1):
         ctx.broken("positive controls fx::erase_then_use::remove/dangling not reported by the use-after-invalidate rule")
     for f in functions:
         fs = use_after_invalidate(f)
+        if kinds is not None:
+            fs = [x for x in fs if x[4] in kinds]
         if not fs:
             ctx.ob(rid, True, f.where, "%s has no use after invalidation" % f.name, fn=f.label, inst=f.qname)
         for st, p, how, inv, kind in fs:
